@@ -85,6 +85,13 @@ CHECKS["C08"] = dict(
     ref="DESIGN.md 5 C08",
 )
 
+CHECKS["C19"] = dict(
+    text="A generated virtual web of 1-8 sheets (import tree or DAG over parent / sibling / child directories and another host; relative, ../-, root-, scheme-relative and absolute URLs with query strings and fragments; media on any edge; missing and failing targets; unwrappable content) is served by a simulated network to parseUrl / resolveImports / csscombine (normal and minified, custom fetcher and fake urlopen).  getUrls and the replacer call log are compared with the generator's document-order URL list (identity replacer = byte-for-byte no-op); the combined sheet is reduced to an ordered sequence of (media context, leaf) with URLs made absolute and compared with an expansion oracle computed from the abstract sheets with urljoin; kept @imports, fetch counts (trees) and the global serializer are checked as well.",
+    note="Where the statement leaves a choice (group containing @page / @font-face / nested @media; href of a kept import below depth 1) the outcome is observed, not predicted. One recorded known finding (an unavailable target is fetched again when its kept rule is added to the combined sheet). Sampling, not proof.",
+    technique="deterministic simulation with fault injection: generated multi-party web served by a simulated transport (missing / failing targets), expansion reference model with urljoin",
+    ref="DESIGN.md 5 C19",
+)
+
 PENDING = {'C01': "check not built yet in this round (claimed by DESIGN.md section 2; will move to 'checks' when its simulation world exists)", 'C03': "check not built yet in this round (claimed by DESIGN.md section 2; will move to 'checks' when its simulation world exists)", 'C08': "check not built yet in this round (claimed by DESIGN.md section 2; will move to 'checks' when its simulation world exists)", 'C09': "check not built yet in this round (claimed by DESIGN.md section 2; will move to 'checks' when its simulation world exists)", 'C10': "check not built yet in this round (claimed by DESIGN.md section 2; will move to 'checks' when its simulation world exists)", 'C11': "check not built yet in this round (claimed by DESIGN.md section 2; will move to 'checks' when its simulation world exists)", 'C12': "check not built yet in this round (claimed by DESIGN.md section 2; will move to 'checks' when its simulation world exists)", 'C14': "check not built yet in this round (claimed by DESIGN.md section 2; will move to 'checks' when its simulation world exists)", 'C15': "check not built yet in this round (claimed by DESIGN.md section 2; will move to 'checks' when its simulation world exists)", 'C16': "check not built yet in this round (claimed by DESIGN.md section 2; will move to 'checks' when its simulation world exists)", 'C17': "check not built yet in this round (claimed by DESIGN.md section 2; will move to 'checks' when its simulation world exists)", 'C19': "check not built yet in this round (claimed by DESIGN.md section 2; will move to 'checks' when its simulation world exists)"}
 
 
